@@ -1,8 +1,11 @@
 package interp
 
 import (
+	"crypto/sha256"
+	"encoding/base64"
 	"fmt"
 	"go/types"
+	"path/filepath"
 	"reflect"
 	"sort"
 	"strings"
@@ -304,29 +307,58 @@ func registerEnv(ip *Interp) {
 		}
 		return Tuple{v.(Iface).V, Iface{}}
 	})
-	// golang.org/x/mod/sumdb/dirhash over the filesystem model: the "hash" of a
-	// file list is a fixed text listing the (sorted) names - injective in the set
-	// of names, blind to contents (contents of package files do not change within
-	// one run of a harness). HashDir(dir) = Hash1(DirFiles(dir)).
+	// golang.org/x/mod/sumdb/dirhash over the filesystem model, computed exactly as
+	// the real package does (sha256 of every file, summary "h1:" + base64 of the
+	// sha256 of the "%x  name" lines): file contents must be concrete. Hash1 calls
+	// the open function it is given (interpreted) and reads through the returned
+	// io.ReadCloser, so a caller that wraps or cuts the content is seen.
 	listDir := func(ip *Interp, dir, prefix string) []string {
 		var out []string
 		for f := range ip.fs.files {
 			if strings.HasPrefix(f, dir+"/") && !strings.HasSuffix(f, "/") {
-				out = append(out, prefix+"/"+f[len(dir)+1:])
+				out = append(out, filepath.ToSlash(filepath.Join(prefix, f[len(dir)+1:])))
 			}
 		}
 		sort.Strings(out)
 		return out
 	}
-	hashOf := func(files []string) string {
-		fs := append([]string(nil), files...)
-		sort.Strings(fs)
-		return "h1:stub:" + strings.Join(fs, ",")
+	concBytes := func(b []*sym.Term, what string) []byte {
+		out := make([]byte, len(b))
+		for i, t := range b {
+			if !t.IsConst() {
+				panic(unsupported("dirhash over symbolic file content: " + what))
+			}
+			out[i] = byte(t.Val)
+		}
+		return out
+	}
+	summary := func(names []string, content func(name string) ([]byte, Value)) Value {
+		names = append([]string(nil), names...)
+		sort.Strings(names)
+		h := sha256.New()
+		for _, n := range names {
+			if strings.Contains(n, "\n") {
+				return Tuple{mkStr(ip.ctx, ""), ip.newError(mkStr(ip.ctx, "dirhash: filenames with newlines are not supported"))}
+			}
+			data, err := content(n)
+			if err != nil {
+				return Tuple{mkStr(ip.ctx, ""), err}
+			}
+			fmt.Fprintf(h, "%x  %s\n", sha256.Sum256(data), n)
+		}
+		return Tuple{mkStr(ip.ctx, "h1:"+base64.StdEncoding.EncodeToString(h.Sum(nil))), Iface{}}
 	}
 	ip.regStub("golang.org/x/mod/sumdb/dirhash.HashDir", func(ip *Interp, fr *frame, a []Value) Value {
 		dir, _ := a[0].(Str).Concrete()
 		prefix, _ := a[1].(Str).Concrete()
-		return Tuple{mkStr(ip.ctx, hashOf(listDir(ip, dir, prefix))), Iface{}}
+		return summary(listDir(ip, dir, prefix), func(name string) ([]byte, Value) {
+			rel := strings.TrimPrefix(strings.TrimPrefix(name, prefix), "/")
+			f := ip.fs.files[dir+"/"+rel]
+			if f == nil {
+				return nil, ip.fsErr("open "+dir+"/"+rel+": no such file or directory", true)
+			}
+			return concBytes(f.data.B, dir+"/"+rel), nil
+		})
 	})
 	ip.regStub("golang.org/x/mod/sumdb/dirhash.DirFiles", func(ip *Interp, fr *frame, a []Value) Value {
 		dir, _ := a[0].(Str).Concrete()
@@ -348,7 +380,42 @@ func registerEnv(ip *Interp) {
 			}
 			names = append(names, n)
 		}
-		return Tuple{mkStr(ip.ctx, hashOf(names)), Iface{}}
+		open := a[1]
+		return summary(names, func(name string) ([]byte, Value) {
+			r := ip.call(fr, open, []Value{mkStr(ip.ctx, name)}).(Tuple)
+			if e := r[1].(Iface); e.T != nil {
+				return nil, e
+			}
+			rc := r[0].(Iface)
+			read, closeFn := ip.findMethod(rc.T, "Read"), ip.findMethod(rc.T, "Close")
+			if read == nil || closeFn == nil {
+				panic(unsupported("dirhash.Hash1: open returned a value without Read/Close"))
+			}
+			var data []*sym.Term
+			for {
+				arr := make([]Value, 32*1024)
+				for i := range arr {
+					arr[i] = ip.ctx.BV(0, 8)
+				}
+				buf := Slice{Arr: &arr, Len: len(arr), Cap: len(arr)}
+				rr := ip.call(fr, read, []Value{rc.V, buf}).(Tuple)
+				n := int(ip.concretize(rr[0].(*sym.Term)))
+				for i := 0; i < n; i++ {
+					data = append(data, arr[i].(*sym.Term))
+				}
+				if e := rr[1].(Iface); e.T != nil {
+					if ip.truth(ip.ctx.Bool(ip.errIs(fr, e, (*ip.global(ip.Prog.ImportedPackage("io").Var("EOF"))).(Iface), 0))) {
+						break
+					}
+					return nil, e
+				}
+				if n == 0 && len(data) > 1<<26 {
+					panic(unsupported("dirhash.Hash1: reader never ends"))
+				}
+			}
+			ip.call(fr, closeFn, []Value{rc.V})
+			return concBytes(data, name), nil
+		})
 	})
 	// sort.Slice / sort.SliceStable: insertion sort driven by the interpreted less
 	// function (a valid outcome of the unstable sort; the order of elements that
